@@ -75,6 +75,7 @@ OTHER_RULES = {
     "C20": [
         ("exponential-inherit-source-preview", lambda s, d: "inherit" in s),
         ("exponential-with-body-preview", lambda s, d: "with" in s),
+        ("exponential-assert-condition-preview", lambda s, d: "assert" in s),
     ],
     "C13": [
         ("negative-number-in-list", lambda s, d: "[ -" in d or " -" in d and "[" in d),
@@ -93,6 +94,7 @@ OTHER_META = {
     "file-channel-translates-crlf": ("`-f FILE` reads with universal-newline translation while stdin does not: a CRLF file is reported OK by `nima test -f` and Fail through stdin", "cli/parser.py: argparse.FileType('r') opens in text mode with newline=None"),
     "exponential-inherit-source-preview": ("nested `inherit (src) …;` sources are rendered twice per level (preview, then real pass): 2^n rebuild calls", "inherit.py:Inherit.rebuild renders from_expression once as `source_preview` and again for the output"),
     "exponential-with-body-preview": ("`with e; with f; … <multi-line body>` renders every body twice per level", "with_statement.py:WithStatement.rebuild renders the body inline first and, if that contains a newline, again in multi-line mode"),
+    "exponential-assert-condition-preview": ("an `assert` whose condition starts on the next line renders the condition twice per level (2^n for nested assert conditions)", "assertion.py:Assertion.rebuild renders an inline preview of the condition and then the multi-line form"),
     "negative-number-in-list": ("negative numbers are rendered bare inside lists (`[ -1 ]`), a syntax error", "list.py:NixList.rebuild does not parenthesise unary minus"),
     "float-exponent-form": ("floats whose repr uses an exponent render as `1e-07` / `1e+16`, which Nix reads as something else", "expression.py:coerce_expression uses repr(value)"),
 }
